@@ -6,7 +6,7 @@
    duplicate-free and within range; N = effective n_sensors <= kk; allowance s = n_const g. *)
 From Coq Require Import List Arith ZArith Lia.
 Import ListNotations.
-From PS Require Import Sel.Argmax Sel.Greedy Sel.GreedyProofs Sel.NormCalc Sel.RegionProofs.
+From PS Require Import Sel.Argmax Sel.Greedy Sel.GreedyProofs Sel.NormCalc Sel.RegionProofs Sel.TieRefuted.
 
 Definition gqr (key : list nat -> nat -> Z) (o : option_name) (g : settings) (n t : nat) : state :=
   run (dv_gqr key (permit_of o g)) t (init n).
@@ -66,3 +66,19 @@ Proof.
   split; [repeat constructor; simpl; intuition discriminate|]. split; [simpl; intros x [<-|[<-|[<-|[]]]]; lia|].
   simpl. repeat split; lia.
 Qed.
+
+(* The hypothesis "all_sensors g = unconstrained key n kk" of the two counting theorems cannot be weakened to "all_sensors is A
+   greedy ranking of the same oracle" (each entry attains the maximum among the sensors not yet ranked, ties broken in any way):
+   witness = the exact squared residual norms of a 6 x 3 integer matrix whose third step has an exact tie.  This is the model-level
+   statement of the two known findings of this property (known_findings.json): scipy's QR, which usually supplies all_sensors,
+   breaks exact ties differently from GQR's argmax. *)
+Theorem C05_ties_in_all_sensors_refuted :
+  exists key n kk N, (forall rk c, 0 < key rk c)%Z /\ kk <= n /\ N <= kk /\
+   (exists g, greedy_ranking key n kk (all_sensors g) /\ NoDup (lin_idx g) /\ (forall x, In x (lin_idx g) -> x < n) /\ eff_n g = N /\
+       n_const g <= length (lin_idx g) /\ N + length (lin_idx g) <= n + n_const g /\ n_const g <= N /\
+       n_const g < count_in (lin_idx g) (fst (gqr key OMax g n N))) /\
+   (exists g, greedy_ranking key n kk (all_sensors g) /\ NoDup (lin_idx g) /\ (forall x, In x (lin_idx g) -> x < n) /\ eff_n g = N /\
+       n_const g <= length (lin_idx g) /\ N + length (lin_idx g) <= n + n_const g /\ n_const g <= N /\
+       count_in (lin_idx g) (fst (gqr key OExact g n N)) <> n_const g).
+Proof. exact ties_in_all_sensors_refuted. Qed.
+Print Assumptions C05_ties_in_all_sensors_refuted.
